@@ -136,19 +136,21 @@ def closure_roles(crates, pins=None):
         if len(lst) > 1 and want:
             free = list(order)
             taken = {}
-            for nm in want:
-                if not free:
-                    break
+            # best-scoring (pinned name, closure) pairs first; ties go to the lower pinned index, then to the earlier closure - so a
+            # pinned closure that has left this parent (moved into a helper, rewritten as a loop) does not push its name onto a sibling
+            # that fits a later pin exactly
+            scores = []
+            for wi, nm in enumerate(want):
                 pt = set(pins[nm])
-                best, bs = None, -1.0
-                for cp in free:
+                for ci, cp in enumerate(order):
                     ct = set(closure_tokens(bodies[cp])) if cp in bodies else set()
                     u = len(pt | ct)
-                    sc = (len(pt & ct) / u) if u else 1.0
-                    if sc > bs + 1e-9:
-                        best, bs = cp, sc
-                taken[nm] = best
-                free.remove(best)
+                    scores.append((-((len(pt & ct) / u) if u else 1.0), wi, ci, nm, cp))
+            for sc, wi, ci, nm, cp in sorted(scores):
+                if nm in taken or cp not in free:
+                    continue
+                taken[nm] = cp
+                free.remove(cp)
             used = set(taken)
             rest = [nm for nm in names if nm not in used]
             extra_k = len(names)
@@ -217,6 +219,7 @@ class Fn:
         self.prog = prog
         b = meta['body']
         self.argc = b['argc']
+        self.arg_perm = None
         self.locals = b['locals']
         self.blocks = b['blocks']
         self.promoted = meta.get('promoted', [])
@@ -401,7 +404,7 @@ class Fn:
 
     def term_local(self, l, depth=0, at=None):
         if 1 <= l <= self.argc:
-            return f'arg{l}'
+            return f'arg{self.arg_perm.get(l, l)}' if self.arg_perm else f'arg{l}'
         key = l
         if key in self._tcache:
             return self._tcache[key]
@@ -523,7 +526,16 @@ class Fn:
         if k == 'array':
             return '[' + ','.join(self.term_operand(o, depth) for o in rv[1]) + ']'
         if k in ('closure', 'coroutine'):
-            return f'{k}:{strip_generics(rv[1])}'
+            cp = strip_generics(rv[1])
+            if re.search(r'::\{closure@[^{}]*\}$', cp) and not cp.startswith(self.path + '::{closure'):
+                # built here by the expanded copy of a transparent helper: named as if it had been written in this function, when
+                # that name is free (cx.fn resolves the name back to the helper's closure)
+                role = cp.rsplit('::{closure@', 1)[1]
+                k_ = 0
+                while f'{self.path}::{{closure@{role.split("#", 1)[0]}#{k_}}}' in self.prog.fns:
+                    k_ += 1
+                cp = f'{self.path}::{{closure@{role.split("#", 1)[0]}#{k_}}}'
+            return f'{k}:{cp}'
         if k == 'repeat':
             return f'repeat({self.term_operand(rv[1], depth)})'
         return 'rv?' + str(rv[1])[:40]
@@ -549,6 +561,13 @@ class Fn:
         if d in ('Into::into', 'From::from') and args:
             return f'into<{short_ty(self.locals[t[3]] if isinstance(t[3], int) else "")}>({args[0]})'
         name = strip_generics(c.get('res') or c['def']).replace(', ', ';').replace(',', ';')
+        tf = self.prog.fns.get(self.prog.raw2norm.get(c.get('res') or c['def'], strip_generics(c.get('res') or c['def']))) if self.prog.perm_fns else None
+        if tf is not None and tf.arg_perm and len(args) == tf.argc:
+            # the callee's parameters were reordered since the rules were reviewed: arguments are listed in the reviewed order
+            re_ = list(args)
+            for cur, base in tf.arg_perm.items():
+                re_[base - 1] = args[cur - 1]
+            args = re_
         # awaiting an async fn / async block: poll of the coroutine body built by the call
         if len(args) == 2 and 'get_context(' in args[1] and (re.search(r'::\{closure[^}]*\}$', name) or name.endswith('::poll')):
             return f'await({args[0]})'
@@ -841,6 +860,24 @@ class Program:
         self._closure_sites = None
         self._callers = None
         self.inline_stats = {}
+        # parameter order of private functions (rules/known_params.json, tools/gen_known_fns.py): rule terms name parameters by
+        # position (`arg2`); when a non-pub function still has the reviewed parameter NAMES in another ORDER, its parameters (and the
+        # arguments at its call sites) are rendered in the reviewed order.  Never active on the reviewed tree.
+        self.perm_fns = 0
+        try:
+            kp = os.path.join(os.path.dirname(os.path.dirname(os.path.abspath(__file__))), 'rules', 'known_params.json')
+            known_params = json.load(open(kp)) if os.environ.get('VERIF_NO_INLINE') != '1' and os.path.exists(kp) else {}
+        except Exception:
+            known_params = {}
+        for p, f in self.fns.items():
+            base = known_params.get(p)
+            if not base or f.meta.get('vis') == 'pub' or len(base) != f.argc:
+                continue
+            cur = [f.varname.get(i) for i in range(1, f.argc + 1)]
+            if None in cur or cur == base or len(set(cur)) != len(cur) or sorted(cur) != sorted(base):
+                continue
+            f.arg_perm = {i + 1: base.index(nm) + 1 for i, nm in enumerate(cur)}
+            self.perm_fns += 1
         if os.environ.get('VERIF_NO_INLINE') != '1':
             # transparent helpers (engine/inline.py): expand small private functions that no rule mentions at their call sites
             import inline
@@ -885,12 +922,20 @@ class Program:
     def closure_site(self, cpath):
         """(parent Fn, capture operands) of the aggregate that builds closure cpath"""
         if self._closure_sites is None:
-            self._closure_sites = {}
+            allsites = {}
             for f in self.fns.values():
                 for b in f.blocks:
                     for st in b['s']:
                         if st[0] == '=' and st[2][0] in ('closure', 'coroutine'):
-                            self._closure_sites.setdefault(strip_generics(st[2][1]), (f, st[2][2]))
+                            allsites.setdefault(strip_generics(st[2][1]), []).append((f, st[2][2]))
+            self._closure_sites = {}
+            for cp, sites in allsites.items():
+                # a closure written inside a transparent helper is also built by the (single) function the helper was expanded
+                # into: its captures are then read in that caller's frame, so that the helper's parameters become the caller's values
+                own = (self.fns[cp].meta.get('parent_fn') if cp in self.fns else None)
+                foreign = [x for x in sites if x[0].path != own and not (own and x[0].path.startswith(own + '::{closure'))]
+                fp = {x[0].path for x in foreign}
+                self._closure_sites[cp] = foreign[0] if len(fp) == 1 else sites[0]
         return self._closure_sites.get(cpath)
 
     # call graph ---------------------------------------------------------
